@@ -13,7 +13,7 @@ from fractions import Fraction as F
 
 from .. import nf
 from ..model import AnalysisError
-from ..values import DictV, Num, Vec
+from ..values import DictV, ExtObj, Num, Vec
 from .common import FP, interp, returns
 
 LEVEL = "other"
@@ -99,7 +99,7 @@ def check(ctx):
     val = it.to_nf(p.value)
     den = nf.sub(nf.sub(nf.sub(nf.ONE, P_("S_or")), P_("S_wc")), P_("S_gc"))
     found_phase = set()
-    for mono_atom, base_atom, expo, cofactor in _powers(val, it):
+    for mono_atom, base_atom, expo, cofactor, wrappers in _powers(val, it):
         ph = next((k for k, (_s, _r, n, _km) in PHASES.items() if expo == P_(n)), None)
         if ph is None:
             continue
@@ -117,6 +117,12 @@ def check(ctx):
         if inner is not None:
             want = nf.div(nf.sub(nf.fn("[]", nf.sym("saturations"), nf.sym(repr(s))), P_(r)), den)
             ctx.identity("C14-b", q + f":k_r{ph} normalised saturation", where, f"the clamped quantity is ({s} - {r}) / (1 - S_or - S_wc - S_gc)", inner, want)
+        opaque_wrappers = [w for w in wrappers if not _transparent(w)]
+        ctx.check(
+            not opaque_wrappers, "C14-b", q + f":k_r{ph} returned as computed", where,
+            "between the Corey power and the returned record there is nothing but containers and, at most, a clamp from below at exactly 0 (no offset, no scaling, no other clamp)",
+            signature="wrapped by " + ",".join(str(w[1]) for w in opaque_wrappers)[:120], wrappers=[str(w) for w in wrappers],
+        )
         ctx.identity("C14-b", q + f":k_r{ph} end-point", where, f"k_r{ph} == {km} * base ** {n} (ceiling is the declared maximum)", cofactor, P_(km))
     ctx.check(found_phase == set(PHASES), "C14-b", q + ":three phases", f.where(), "oil, water and gas permeabilities are each a Corey power with their own exponent", signature="phases " + ",".join(sorted(found_phase)))
 
@@ -133,7 +139,21 @@ def check(ctx):
         if len(calls) != 1:
             raise AnalysisError(f"{q2}: expected one call of relative_permeabilities")
         # the records handed over are built from a table {So, Sw, Sg}
-        tables = [v for v in p.env.vars.values() if isinstance(v, DictV) and {"So", "Sw", "Sg"} <= set(v.items)]
+        # follow the argument back to the table through content-preserving conversions only
+        arg = calls[0].data["args"]["saturations"]
+        via = []
+        while isinstance(arg, ExtObj) and "recv" in arg.args:
+            via.append(arg.qual.rsplit(".", 1)[-1])
+            arg = arg.args["recv"]
+        changed = [m for m in via if m not in ("to_records", "copy", "to_dict", "reset_index")]
+        if changed:
+            ctx.bad(
+                "C14-d", q2 + ":records handed over", f2.where(),
+                "the records evaluated are the saturation table itself (converted, not transformed): So + Sw + Sg == 1 and Sw as supplied",
+                signature="table transformed by " + ",".join(changed), conversions=via,
+            )
+            break
+        tables = [arg] if isinstance(arg, DictV) and {"So", "Sw", "Sg"} <= set(arg.items) else [v for v in p.env.vars.values() if isinstance(v, DictV) and {"So", "Sw", "Sg"} <= set(v.items)]
         if not tables:
             raise AnalysisError(f"{q2}: saturation table not found")
         t = tables[0]
@@ -167,10 +187,13 @@ def _sum_guard_ok(d):
 
 
 def _powers(val, it):
-    """yield (monomial, base atom, exponent NF, cofactor NF) for every atom raised to a non-constant power"""
+    """yield (monomial, base atom, exponent NF, cofactor NF, wrappers) for every atom raised to a non-constant power;
+    wrappers is the list of constructs between the returned value and the monomial: ('fn', name, const args) for an
+    enclosing function atom, ('sum', n) for an enclosing sum of n > 1 terms"""
     seen = set()
 
-    def walk(p):
+    def walk(p, chain):
+        here = chain + ([("sum", len(p))] if len(p) > 1 else [])
         for m, c in p.items():
             for i, (atom, e) in enumerate(m):
                 ev = nf.unkey(e)
@@ -179,14 +202,29 @@ def _powers(val, it):
                     key = (atom, e)
                     if key not in seen:
                         seen.add(key)
-                        yield m, atom, ev, rest
+                        yield m, atom, ev, rest, here
                 if atom[0] == "fn":
+                    consts = tuple(str(nf.cval(nf.unkey(a))) for a in atom[2] if nf.is_const(nf.unkey(a)))
                     for a in atom[2]:
-                        yield from walk(nf.unkey(a))
+                        yield from walk(nf.unkey(a), here + [("fn", atom[1], consts)])
                 elif atom[0] == "sum":
-                    yield from walk(nf.unkey(atom[1]))
+                    yield from walk(nf.unkey(atom[1]), here)
 
-    yield from walk(val)
+    yield from walk(val, [])
+
+
+def _transparent(w):
+    """a construct that hands a value in [0, k_max] through unchanged: containers, and a clamp from below at exactly 0"""
+    if w[0] == "sum":
+        return False
+    name = w[1].split("{")[0].split(".")[-1].split(":")[0]
+    if name in ("zip", "tuple", "list", "array", "asarray", "rec", "fromarrays", "column_stack", "stack", "buf", "dict", "record", "item", "[]", "store", "vec"):
+        return True
+    if name == "maximum" and w[2] == ("0",):
+        return True
+    if name == "clip" and w[2] and w[2][0] == "0" and (len(w[2]) == 1 or F(w[2][1]) >= 1):
+        return True
+    return False
 
 
 def _clamp_of(atom):
